@@ -12,7 +12,7 @@ EXPLANATION = ('Censuses and control-dependence rules on chain::channelmonitor, 
 	'added; in the revoked branch of check_spend_counterparty_transaction a justice package is built for the to_local output and for EVERY HTLC '
 	'with an output index, with no direction or amount filter (the only guards are the frozen ones); second-stage HTLC transactions spending a '
 	'revoked commitment get a justice package per matching input; every produced package reaches the claim handler; the revoked package variants '
-	'are wired to the justice signer methods; the retention fields are persisted. Decides these shapes on all paths; fees, aggregation and timing are not decided.')
+	'are wired to the justice signer methods; the retention fields are persisted. Also: every claim-output builder in the monitor is given the height parameter of the block being processed as confirmation height; packages collected by the spend checks are returned at every exit that follows an insertion. Decides these shapes on all paths; fees, aggregation and timing are not decided.')
 ASSUMPTIONS = ['transaction/script validity is out of scope', 'the broadcaster and fee estimator honour their contracts']
 
 def _ops(F, field, exclude_reads=True):
